@@ -10,14 +10,16 @@ trap 'rm -rf "$with" "$without"' EXIT
 rsync -a --exclude .git /repo/ "$with/"; rsync -a --exclude .git /repo/ "$without/"
 (cd "$with" && git init -q . && git apply --whitespace=nowarn "$d/patch.diff") || { echo "PATCH does not apply"; exit 1; }
 (cd "$with" && go build ./... ) || { echo "PATCH does not compile"; exit 1; }
-if (cd "$with" && go test -vet=off -count=1 ./... >/tmp/seedv-suite.log 2>&1); then echo "suite with patch: PASS"; else echo "suite with patch: FAIL"; tail -5 /tmp/seedv-suite.log; fi
+suite=FAIL
+for try in 1 2 3; do if (cd "$with" && go test -vet=off -count=1 -timeout 180s ./... >/tmp/seedv-suite.log 2>&1); then suite=PASS; break; fi; done
+echo "suite with patch: $suite"; [ $suite = FAIL ] && tail -5 /tmp/seedv-suite.log
 demo=$(ls "$d"/demo*_test.go 2>/dev/null | head -1)
 if [ -z "$demo" ]; then echo "no demo test"; exit 0; fi
 cp "$d"/demo*_test.go "$with/"; cp "$d"/demo*_test.go "$without/"
 names=$(grep -ho "^func Test[A-Za-z0-9_]*" "$d"/demo*_test.go | sed 's/func //' | paste -sd'|')
 for i in 1 2 3; do
- if (cd "$with" && go test -vet=off -count=1 -run "^($names)\$" . >/tmp/seedv-demo-with.log 2>&1); then echo "demo with patch (run $i): PASS"; else echo "demo with patch (run $i): FAIL"; fi
+ if (cd "$with" && go test -vet=off -count=1 -timeout 300s -run "^($names)\$" . >/tmp/seedv-demo-with.log 2>&1); then echo "demo with patch (run $i): PASS"; else echo "demo with patch (run $i): FAIL"; fi
 done
 for i in 1 2 3; do
- if (cd "$without" && go test -vet=off -count=1 -run "^($names)\$" . >/tmp/seedv-demo-without.log 2>&1); then echo "demo without patch (run $i): PASS"; else echo "demo without patch (run $i): FAIL"; tail -5 /tmp/seedv-demo-without.log; fi
+ if (cd "$without" && go test -vet=off -count=1 -timeout 300s -run "^($names)\$" . >/tmp/seedv-demo-without.log 2>&1); then echo "demo without patch (run $i): PASS"; else echo "demo without patch (run $i): FAIL"; tail -5 /tmp/seedv-demo-without.log; fi
 done
